@@ -44,9 +44,8 @@ ASSUMPTIONS = [
                "interleaving of the modelled atomic steps",
                "inotify delivers an event after the last change of every file, or reports IN_Q_OVERFLOW when it dropped some (hypothesis `Faithful` of "
                "C14.files_present_partial; after an overflow the re-scan re-establishes it: C14.overflow_resync_restores_faithfulness)",
-               "files appear through write(2) or rename(2) (docs/drop_in_configs.md: 'modified-in or moved-into'); "
-               "hard links (IN_CREATE only) and moving the whole directory away are outside the property text and "
-               "not generated",
+               "files appear through write(2) or rename(2) (docs/drop_in_configs.md: 'modified-in or moved-into'); the directory goes away by rmdir or by being renamed away (op mvdir); "
+               "hard links (IN_CREATE only) are outside the property text and not generated",
                "epoll/inotify system calls on valid descriptors do not fail (FsDropInService::run OCHECKs that)",
                "validity of a file's content and the rulesets it targets are the generator's labels (each kind is "
                "constructed to be valid / invalid); a wrong label shows up as a violation, never as a pass",
@@ -630,7 +629,13 @@ def gen(rng, tier):
                 ("same-content", 80), ("rescan-race", 150), ("overflow", 10)]
     for fam, k in plan:
         for _ in range(k * n):
-            yield FAMILIES[fam](rng)
+            sc = FAMILIES[fam](rng)
+            # the directory can also go away by being renamed (the watcher gets IN_MOVE_SELF and no event per file): in a third
+            # of the scenarios that remove it, it is moved away instead - a new one is created at the path just the same
+            if fam != "overflow" and any(o["op"] == "rmdir" for o in sc.get("ops", [])) and rng.random() < 0.33:
+                sc["ops"] = [({"op": "mvdir"} if o["op"] == "rmdir" else o) for o in sc["ops"]]
+                sc["family"] = sc.get("family", fam) + "+mvdir"
+            yield sc
 
 
 # ------------------------------------------------------------------------------------------------
